@@ -118,11 +118,12 @@ Record conncfg := mkConn { cn_id : N; cn_fail : nat; cn_par : Z }.
 Record schedcfg := mkSched { sd_fid : N; sd_spec : Z; sd_seed : Z; sd_filter : Z }.
 
 (* the cron specifications of the harness, as (period, phase) in ns relative to the harness's base instant
-   2023-11-14 22:13:20 UTC:  1 "* * * * *"  2 "*/15 * * * *"  3 "@hourly"  4 "@daily"  5 "0,30 * * * *" *)
+   2023-11-14 22:13:20 UTC:  1 "* * * * *"  2 "*/15 * * * *"  3 "@hourly"  4 "@daily"  5 "0,30 * * * *"
+   6 "@weekly" (Sunday 00:00 UTC; the base instant is a Tuesday, 252800 s after the last one) *)
 Definition spec_period (id : Z) : Z :=
-  match id with 1 => 60 | 2 => 900 | 3 => 3600 | 4 => 86400 | 5 => 1800 | _ => 60 end * 1000000000.
+  match id with 1 => 60 | 2 => 900 | 3 => 3600 | 4 => 86400 | 5 => 1800 | 6 => 604800 | _ => 60 end * 1000000000.
 Definition spec_phase (id : Z) : Z :=
-  match id with 1 => 20 | 2 => 800 | 3 => 800 | 4 => 80000 | 5 => 800 | _ => 20 end * 1000000000.
+  match id with 1 => 20 | 2 => 800 | 3 => 800 | 4 => 80000 | 5 => 800 | 6 => 252800 | _ => 20 end * 1000000000.
 (* cron.Schedule.Next for these specifications: the first tick strictly after t *)
 Definition cron_next (id : Z) (t : Z) : Z :=
   ((t + spec_phase id) / spec_period id + 1) * spec_period id - spec_phase id.
